@@ -34,7 +34,13 @@ RawU == <<2, AffineKV(MkClamped(2, <<Half>>, <<1>>), RI(3), RI(0))>>
 RawV == <<1, AffineKV(MkClamped(1, <<Half>>, <<1>>), RI(2), RI(-1))>>
 RawW == <<1, AffineKV(MkClamped(1, <<Half>>, <<0>>), R(1,2), RI(4))>>
 RawSet == IF VolMode = 0 THEN {} ELSE Volumes({RawV}, {RawU}, {RawW}, BOOLEAN, Seed) \cup Surfaces({RawU}, {RawV}, {3}, {TRUE}, Seed)
-Shapes == CurveSet \cup SurfSet \cup VolSet \cup LongSet \cup RawSet
+\* cubic curves with three interior knots (pairs of knot vectors that agree on all but one local knot), and rational shapes whose
+\* weights are 1/2, 3/2, 1/2, ... (their sum equals the number of control points although they are not all 1)
+Cubic3 == Curves(ClampedDirs({3}, KQ, 3), {2}, BOOLEAN, Seed)
+HalfW(s) == [s EXCEPT !.P = Combine(Ctrlpts(s), [i \in 1..Len(s.P) |-> IF i % 2 = 1 THEN R(1, 2) ELSE R(3, 2)])]
+HalfSet == {HalfW(s) : s \in {x \in Curves(ClampedDirs({2, 3}, KQ, 1), {2}, {TRUE}, Seed) \cup Surfaces(SD1, SD1, {3}, {TRUE}, Seed) \cup VolSet :
+                                x.rat /\ Len(x.P) % 2 = 0}}
+Shapes == CurveSet \cup SurfSet \cup VolSet \cup LongSet \cup RawSet \cup Cubic3 \cup HalfSet
 
 Init == sh \in Shapes /\ out = [op |-> "init"]
 
